@@ -162,7 +162,7 @@ func (m *Model) MergedConfig() map[string]*MLeaf {
 	}
 	// leaves an orphan delete left on the device are part of the resulting configuration
 	for k, l := range m.OrphanVals {
-		if _, ok := out[k]; !ok {
+		if _, ok := out[k]; !ok && (m.DevHas == nil || m.DevHas(k)) {
 			out[k] = l
 		}
 	}
